@@ -56,7 +56,7 @@ select
     datetime(etime/1000, 'unixepoch') as etime,
     datetime(mtime/1000, 'unixepoch') as mtime
 from rkey
-where rkey.etime is null or rkey.etime > unixepoch('subsec');
+where rkey.etime is null or rkey.etime > unixepoch('subsec') * 1000;
 
 -- ┌───────────────┐
 -- │ Strings       │
@@ -80,7 +80,7 @@ select
     datetime(etime/1000, 'unixepoch') as etime,
     datetime(mtime/1000, 'unixepoch') as mtime
 from rstring join rkey on rstring.kid = rkey.id and rkey.type = 1
-where rkey.etime is null or rkey.etime > unixepoch('subsec');
+where rkey.etime is null or rkey.etime > unixepoch('subsec') * 1000;
 
 -- ┌───────────────┐
 -- │ Lists         │
@@ -129,7 +129,7 @@ select
     datetime(etime/1000, 'unixepoch') as etime,
     datetime(mtime/1000, 'unixepoch') as mtime
 from rlist join rkey on rlist.kid = rkey.id and rkey.type = 2
-where rkey.etime is null or rkey.etime > unixepoch('subsec')
+where rkey.etime is null or rkey.etime > unixepoch('subsec') * 1000
 window w as (partition by kid order by pos);
 
 -- ┌───────────────┐
@@ -164,7 +164,7 @@ select
     datetime(etime/1000, 'unixepoch') as etime,
     datetime(mtime/1000, 'unixepoch') as mtime
 from rset join rkey on rset.kid = rkey.id and rkey.type = 3
-where rkey.etime is null or rkey.etime > unixepoch('subsec');
+where rkey.etime is null or rkey.etime > unixepoch('subsec') * 1000;
 
 -- ┌───────────────┐
 -- │ Hashes        │
@@ -203,7 +203,7 @@ select
     datetime(etime/1000, 'unixepoch') as etime,
     datetime(mtime/1000, 'unixepoch') as mtime
 from rhash join rkey on rhash.kid = rkey.id and rkey.type = 4
-where rkey.etime is null or rkey.etime > unixepoch('subsec');
+where rkey.etime is null or rkey.etime > unixepoch('subsec') * 1000;
 
 -- ┌───────────────┐
 -- │ Sorted sets   │
@@ -245,4 +245,4 @@ select
     datetime(etime/1000, 'unixepoch') as etime,
     datetime(mtime/1000, 'unixepoch') as mtime
 from rzset join rkey on rzset.kid = rkey.id and rkey.type = 5
-where rkey.etime is null or rkey.etime > unixepoch('subsec');
+where rkey.etime is null or rkey.etime > unixepoch('subsec') * 1000;
